@@ -17,6 +17,11 @@ MCProg ==
   CASE ProgSet = "rw"  -> (1 :> <<R("x", "d1"), N("x")>> @@ 2 :> <<R("x", "d2"), N("y")>> @@ 3 :> <<N("x"), Li>>)
     [] ProgSet = "ww"  -> (1 :> <<R("x", "d1"), R("y", "d1")>> @@ 2 :> <<R("y", "d2"), R("x", "d2")>> @@ 3 :> <<Li, N("x")>>)
     [] ProgSet = "mix" -> (1 :> <<R("x", "d1"), Li>> @@ 2 :> <<N("x"), R("x", "d2")>> @@ 3 :> <<N("x"), N("x")>>)
+    \* smaller programs (five operations) for the quick tier: with call and return as steps of their own the
+    \* six-operation sets have four to six million states each
+    [] ProgSet = "s1"  -> (1 :> <<R("x", "d1"), N("x")>> @@ 2 :> <<R("x", "d2")>> @@ 3 :> <<N("x"), Li>>)
+    [] ProgSet = "s2"  -> (1 :> <<R("x", "d1")>> @@ 2 :> <<R("y", "d2"), N("x")>> @@ 3 :> <<Li, N("y")>>)
+    [] ProgSet = "s3"  -> (1 :> <<N("x"), R("x", "d1")>> @@ 2 :> <<R("x", "d2")>> @@ 3 :> <<N("x"), N("x")>>)
 MCProcs == {1, 2, 3}
 MCBuiltins == ("b" :> "db")
 
@@ -26,7 +31,7 @@ EmitDone == GenFile = "" \/ ~AllDone' \/ AllDone
 
 \* ... and the same behaviour as an observer outside the lock logs it: a call line and a return line per
 \* operation, in clock order -- the input format of RegistryTrace.tla, which must accept every one of them
-AllOps == {<<p, i>> : p \in MCProcs, i \in 1..2}
+AllOps == UNION {{<<p, i>> : i \in 1..Len(MCProg[p])} : p \in MCProcs}
 LogLine(x, ret) ==
   LET o == MCProg[x[1]][x[2]]
       base == [ev |-> IF ret THEN "ret" ELSE "call", op |-> o.op, g |-> x[1],
@@ -38,9 +43,9 @@ LogLine(x, ret) ==
 Stamps == {iv'[x[1]][x[2]].s : x \in AllOps} \cup {iv'[x[1]][x[2]].e : x \in AllOps}
 LineAt(t) == LET x == CHOOSE y \in AllOps : iv'[y[1]][y[2]].s = t \/ iv'[y[1]][y[2]].e = t
              IN LogLine(x, iv'[x[1]][x[2]].e = t)
-ModelLog == <<[ev |-> "init", names |-> <<<<"b", "db">>>>, early |-> <<>>]>> \o
+ModelLog == <<[ev |-> "init", names |-> <<<<"b", "db">>>>, early |-> <<>>, builtins |-> <<"b">>]>> \o
             [k \in 1..Cardinality(Stamps) |-> LineAt(k)]
-EmitLog == LogFile = "" \/ ~AllDone' \/ AllDone \/ CSVWrite("%1$s", <<ToJson(ModelLog)>>, LogFile)
+EmitLog == LogFile = "" \/ ~Stamp \/ ~AllDone' \/ AllDone \/ CSVWrite("%1$s", <<ToJson(ModelLog)>>, LogFile)
 
 Inv == MutualExclusion /\ Linearizable /\ LookupSound /\ FinalState /\ ListingComplete /\ Regular
 =============================================================================
